@@ -20,6 +20,20 @@ func init() {
 		Models:      []string{"M-json (struct field tables from go/types tags of the current source; Marshaler/Unmarshaler bodies from SSA; hand-built text parsed by the rope parser)", "M-swag.ConcatJSON", "M-reflect (swag name provider)", "lazy presence for map-range loops (fork only if the loop body has an effect)"},
 	})
 	reg(&PropSpec{
+		ID: "C06", Prefix: "vh_C06_", Repeat: 40,
+		Quick:    Tier{Params: map[string]int{"exts": 1, "extras": 1, "name_len": 1, "sizes": 1, "any_shapes": 2, "vary": 0, "props": 2, "ref_len": 3}},
+		Thorough: Tier{Params: map[string]int{"exts": 2, "extras": 2, "name_len": 2, "sizes": 2, "any_shapes": 2, "vary": 1, "vary_points": 60, "vary_alts": 4, "props": 2, "ref_len": 4}},
+		Bounds: []string{
+			"vh_C06_nodup_<Kind>: values decoded from the symbolic normal-form documents of C01 (presence of every keyword symbolic); output must be valid JSON without repeated member names",
+			"vh_C06_builders: values built by AddExtension x2 (keys x-/X- + symbolic byte), SetProperty x2, RespondsWith x2 + default, AddHeader x2, AddExample",
+			"vh_C06_order: schema with 2..props properties, names one symbolic byte each (distinct), x-order absent / float64 in {0,1,2} / digit string in {0,1,2} / non-numeric string; encoded twice with every map iteration order explored independently (symbolic permutations); byte equality and (has x-order, x-order, name) order asserted",
+			"vh_C06_refstring: $ref text of 0..ref_len unconstrained bytes inside a schema",
+		},
+		Outside:     []string{"more than props properties, x-order values outside {0,1,2} or non-integral floats (int() truncation ties), longer names, builder sequences longer than listed", "'many runs of randomised map iteration' (sampling) is replaced by the symbolic permutation; native replays repeat 40 times"},
+		Assumptions: []string{"property names pairwise distinct", "valid UTF-8"},
+		Models:      []string{"M-json", "M-swag.ConcatJSON", "sort.Sort and OrderSchemaItems.Less (with its recover) executed from SSA", "map iteration = symbolic permutation"},
+	})
+	reg(&PropSpec{
 		ID: "C11", Prefix: "vh_C11_",
 		Quick:    Tier{Params: map[string]int{"segs": 2, "seg_len": 2}},
 		Thorough: Tier{Params: map[string]int{"segs": 3, "seg_len": 2}},
